@@ -119,6 +119,9 @@ func ReadSegmentBlock(path string, blockNum int, opts *SegmentOptions) ([]byte, 
 		return nil, err
 	}
 	
+	if blockNum < 0 {
+		return nil, fmt.Errorf("block number cannot be negative")
+	}
 	if blockNum >= segInfo.TotalBlocks {
 		return nil, fmt.Errorf("block %d beyond segment size (%d blocks)", blockNum, segInfo.TotalBlocks)
 	}
@@ -146,6 +149,10 @@ func ReadSegmentBlock(path string, blockNum int, opts *SegmentOptions) ([]byte, 
 // ReadMultiSegmentFile reads data from a potentially multi-segment file
 // globalBlockStart and globalBlockEnd are block numbers in the logical file
 func ReadMultiSegmentFile(basePath string, globalBlockStart, globalBlockEnd int, opts *SegmentOptions) ([]byte, error) {
+	if globalBlockStart < 0 {
+		return nil, fmt.Errorf("block number cannot be negative")
+	}
+
 	segments, err := ListSegments(basePath)
 	if err != nil {
 		return nil, err
